@@ -40,3 +40,21 @@ package genesis
 //@   requires g != nil
 //@   ensures[all-validators] result == nil <==> okFields(g) && g.okPlasma && g.okSwap && g.okPillars && g.okSupply
 //@   modifies nothing
+
+// ---- C20: the per-beneficiary fused totals written at genesis are built from the fusion entries of THAT beneficiary ----------
+// Each fusion entry's amount is added to the accumulator stored under the entry's own beneficiary (never another address), and
+// a first entry opens the accumulator with exactly its amount. (The sum over all entries is the induction over the loop; the
+// step is what is asserted.)
+//@ func newContext(address)
+//@   trusted
+//@   modifies nothing
+//@ func wrap(cfg, context)
+//@   trusted
+//@   modifies nothing
+//@ func genesisPlasmaContractConfig(cfg)
+//@   requires cfg != nil && cfg.PlasmaConfig != nil
+//@   requires forall k int :: 0 <= k && k < len(cfg.PlasmaConfig.Fusions) ==> cfg.PlasmaConfig.Fusions[k] != nil && cfg.PlasmaConfig.Fusions[k].Amount != nil
+//@   at-call Add assert[accumulates-under-the-entry's-beneficiary] has(fusedAmount, entry.Beneficiary) && arg0 == fusedAmount[entry.Beneficiary] && arg1 == arg0 && arg2 == entry.Amount
+//@   at-call Set assert[opens-with-the-entry's-amount] !has(fusedAmount, entry.Beneficiary) && arg1 == entry.Amount
+//@   loop 1
+//@     invariant config == cfg.PlasmaConfig && config != nil && (forall k int :: 0 <= k && k < len(config.Fusions) ==> config.Fusions[k] != nil && config.Fusions[k].Amount != nil)
